@@ -48,10 +48,10 @@ def _discover():
     try:
         pm, dm = loader.module(PPTX), loader.module(DOCX)
         top = lambda m: {q: f for q, f in m.functions.items() if "." not in q}
-        pc = [q for q, f in top(pm).items() if _calls(f, "omml_to_latex")]
+        pc = [q for q, f in top(pm).items() if B.converter_calls(pm, f)]
         if names["pptx"] not in pc and len(pc) == 1:
             names["pptx"] = pc[0]
-        dc = {q: f for q, f in top(dm).items() if _calls(f, "omml_to_latex")}
+        dc = {q: f for q, f in top(dm).items() if B.converter_calls(dm, f)}
         rec = [q for q, f in dc.items() if _calls(f, q)]
         rec_ = [q for q in rec]
         if names["pte"] not in dc and len(rec_) == 1:
@@ -326,8 +326,26 @@ class SiteExecutor(B.C19Executor):
         return super().get_index(st, base, idx, node)
 
     def converts(self, nodes):
-        return any(isinstance(n, ast.Call) and isinstance(n.func, ast.Name) and n.func.id == "omml_to_latex"
-                   for b in nodes for n in ast.walk(b))
+        try:
+            cm = loader.module(self.contract.target.split("::")[0])
+        except Exception:  # noqa
+            return any(_calls(b, "omml_to_latex") for b in nodes)
+        return any(B.converter_calls(cm, b) for b in nodes)
+
+    def e_Dict(self, n, st):
+        if self.site_mode() and not n.keys:
+            # an empty dict in these functions can only become an id-keyed map (`d[id(x)] = x`, `id(x) in d`): modelled as the
+            # set of its keys; any other use leaves the model (Unsupported -> bounded stand-in)
+            return [(st, VRef(st.alloc(HeapObj("idset", {"arr": z3.K(El, z3.BoolVal(False))}), self.refs)))]
+        return super().e_Dict(n, st)
+
+    def store_index(self, st, base, idx, v, node):
+        if isinstance(base, VRef) and st.obj(base.ref).kind == "idset":
+            if not isinstance(idx, VElemId):
+                raise Unsupported(f"{self.loc(node)} id-keyed map with another key")
+            st.wobj(base.ref).data = {"arr": z3.Store(st.obj(base.ref).data["arr"], idx.t, z3.BoolVal(True))}
+            return [st]
+        return super().store_index(st, base, idx, v, node)
 
     def havoc_loop(self, st, nodes, accs):
         super().havoc_loop(st, nodes, accs)
